@@ -175,7 +175,7 @@ def one(ctx, LP, D, ph, mode):
 
 
 def run(tier, seed):
-    ctx = core.Ctx(PROP, tier, seed, "translation_validation", ["C06", "C06b", "C06c", "C06d", "C06e", "C06f", "C06g"])
+    ctx = core.Ctx(PROP, tier, seed, "translation_validation", ["C06", "C06b", "C06c", "C06d", "C06e", "C06f", "C06g", "C06h"])
     ctx.axioms = core.audit(ctx.modules)
     import pyqsp.LPoly as LP
     import pyqsp.decomposition as D
@@ -207,7 +207,7 @@ def run(tier, seed):
 def replay(path):
     import json
     c = json.load(open(path))
-    ctx = core.Ctx(PROP, "quick", c.get("seed", 0), "translation_validation", ["C06", "C06b", "C06c", "C06d", "C06e", "C06f", "C06g"])
+    ctx = core.Ctx(PROP, "quick", c.get("seed", 0), "translation_validation", ["C06", "C06b", "C06c", "C06d", "C06e", "C06f", "C06g", "C06h"])
     import pyqsp.LPoly as LP
     import pyqsp.decomposition as D
     one(ctx, LP, D, c["phases"], c.get("mode", "?"))
